@@ -330,13 +330,155 @@ func c15DiffField(want, got []string) string {
 	return "?"
 }
 
+// c15ManyTrips: N trips (N around powers of two) over three feeds in four appearance patterns,
+// three windows; the expectation is computed per trip from the statement's rules.
+var c15TripCounts = []int{9, 65, 257, 1025}
+var c15Patterns = []string{"all assigned in every feed", "every third missing from feed 1", "odd ones never assigned; every fifth missing from feed 2", "assigned, then every second without vehicle, then all missing"}
+
+// state of trip i in feed k under pattern p: 0 absent, 1 unassigned, 2 vehicle "v<i>a", 3 vehicle "v<i>b"
+func c15PatternState(p, i, k int) int {
+	switch p {
+	case 0:
+		return 2 + k%2
+	case 1:
+		if k == 1 && i%3 == 0 {
+			return 0
+		}
+		return 2
+	case 2:
+		if i%2 == 1 {
+			return 1
+		}
+		if k == 2 && i%5 == 0 {
+			return 0
+		}
+		return 2 + (k+i)%2
+	case 3:
+		switch k {
+		case 0:
+			return 2
+		case 1:
+			if i%2 == 0 {
+				return 1
+			}
+			return 3
+		}
+		return 0
+	}
+	return 0
+}
+
+func c15ManyTrips(c *Ctx) {
+	n := c15TripCounts[c.Free("trips", len(c15TripCounts))]
+	p := c.Free("pattern", len(c15Patterns))
+	w := c.Free("window", 3)
+	startOf := func(i int) time.Time { return c15S1.Add(time.Duration(i) * time.Minute) }
+	idOf := func(i, k int) string { return fmt.Sprintf("%06d_L..N%d", (i*7+k)%1000000, i%7) } // the prefix changes from feed to feed, the suffix does not
+	uidOf := func(i int) string { return fmt.Sprintf("%d_L..N%d", startOf(i).Unix(), i%7) }
+	var feeds []*gtfs.Realtime
+	for k := 0; k < 3; k++ {
+		f := &gtfs.Realtime{CreatedAt: c14FeedTime(k)}
+		// feeds list trips in identifier order as ParseRealtime produces them: here by construction order
+		for i := 0; i < n; i++ {
+			st := c15PatternState(p, i, k)
+			if st == 0 {
+				continue
+			}
+			stop := "A"
+			day := time.Date(2023, 11, 14, 0, 0, 0, 0, time.UTC)
+			trip := gtfs.Trip{ID: gtfs.TripID{ID: idOf(i, k), RouteID: "L", DirectionID: gtfs.DirectionID_True, HasStartDate: true, StartDate: day, HasStartTime: true, StartTime: startOf(i).Sub(day)},
+				StopTimeUpdates: []gtfs.StopTimeUpdate{{StopID: &stop}}, IsEntityInMessage: true}
+			if st >= 2 {
+				trip.Vehicle = &gtfs.Vehicle{ID: &gtfs.VehicleID{ID: fmt.Sprintf("v%d%c", i, 'a'+st-2)}}
+			}
+			f.Trips = append(f.Trips, trip)
+		}
+		feeds = append(feeds, f)
+	}
+	lo, hi := farPast, farFuture
+	switch w {
+	case 1:
+		lo = startOf(n / 2)
+	case 2:
+		hi = startOf(n / 2)
+	}
+	desc := fmt.Sprintf("%d trips, pattern %q, window %d", n, c15Patterns[p], w)
+	c.Input(hash64(desc), true, func() string { return desc })
+	j, ok := buildJournalGuarded(c, feeds, lo, hi)
+	if !ok {
+		return
+	}
+	c.Steps(3)
+	// expectation
+	type exp struct {
+		uid, id, vehicle string
+		updates          int
+		last             time.Time
+		marked           *time.Time
+	}
+	var want []exp
+	for i := 0; i < n; i++ {
+		if startOf(i).Before(lo) || startOf(i).After(hi) {
+			continue
+		}
+		var e *exp
+		present := false
+		for k := 0; k < 3; k++ {
+			st := c15PatternState(p, i, k)
+			t := c14FeedTime(k)
+			switch {
+			case st == 0:
+				if e != nil && present && e.marked == nil {
+					tt := t
+					e.marked = &tt
+				}
+				present = false
+			case st == 1:
+				if e != nil {
+					present = true // listed, but an update without vehicle does not alter the recorded data
+				}
+			default:
+				if e == nil {
+					e = &exp{uid: uidOf(i)}
+				}
+				e.id, e.vehicle, e.last, e.marked = idOf(i, k), fmt.Sprintf("v%d%c", i, 'a'+st-2), t, nil
+				e.updates++
+				present = true
+			}
+		}
+		if e != nil {
+			want = append(want, *e)
+		}
+	}
+	sort.Slice(want, func(a, b int) bool { return want[a].uid < want[b].uid })
+	var wl, gl []string
+	for _, e := range want {
+		wl = append(wl, fmt.Sprintf("uid=%s id=%s vehicle=%s updates=%d last=%s marked=%s", e.uid, e.id, e.vehicle, e.updates, fmtTime(e.last), fmtTimePtr(e.marked)))
+	}
+	for i := range j.Trips {
+		t := &j.Trips[i]
+		gl = append(gl, fmt.Sprintf("uid=%s id=%s vehicle=%s updates=%d last=%s marked=%s", t.TripUID, t.TripID, t.VehicleID, t.NumUpdates, fmtTime(t.LastObserved), fmtTimePtr(t.MarkedPast)))
+	}
+	c.Outcome(strings.Join(gl, "\n"))
+	if a, b := strings.Join(wl, "\n"), strings.Join(gl, "\n"); a != b {
+		sig := "journal-accounting:many-trips:content"
+		if len(wl) != len(gl) {
+			sig = "journal-accounting:many-trips:selection"
+		} else if sortedJoin(wl) == sortedJoin(gl) {
+			sig = "journal-accounting:many-trips:order"
+		}
+		c.Fail(sig, "%s: journal entries differ from the statement's accounting\n%s", desc, diffLines(a+"\n", b+"\n"))
+	}
+	c.Witness("journal_of_many_trips")
+}
+
 var _ = journal.Journal{}
 
 func init() {
 	register(&Check{
 		ID:    "C15",
 		Level: "model_checking",
-		Rule: "three trip identities (T1, T2 share start instant and id suffix -> one UID; T3 other suffix and start) each per feed in {absent, unassigned, vehicle v1, vehicle v2} (T1 also: vehicle v1 with an empty update list) = 80 feed symbols; ALL histories of <= 3 feeds (thorough <= 4) x 8 windows (incl. bounds with a sub-second part), histories of <= 2 (thorough 3) feeds additionally under 4 feed-time schemes (60 s apart, all equal, no timestamps, decreasing); plus a fourth identity T4 (same trip id and start date as T1, another start time) in {absent, unassigned, v1}: 240 symbols, ALL histories of <= 2 (thorough 3) feeds x 8 windows (incl. bounds with a sub-second part); " +
+		Rule: "9 / 65 / 257 / 1025 trips over three feeds in 4 appearance patterns x 3 windows against per-trip accounting; three trip identities (T1, T2 share start instant and id suffix -> one UID; T3 other suffix and start) each per feed in {absent, unassigned, vehicle v1, vehicle v2} (T1 also: vehicle v1 with an empty update list) = 80 feed symbols; ALL histories of <= 3 feeds (thorough <= 4) x 8 windows (incl. bounds with a sub-second part), histories of <= 2 (thorough 3) feeds additionally under 4 feed-time schemes (60 s apart, all equal, no timestamps, decreasing); plus a fourth identity T4 (same trip id and start date as T1, another start time) in {absent, unassigned, v1}: 240 symbols, ALL histories of <= 2 (thorough 3) feeds x 8 windows (incl. bounds with a sub-second part); " +
 			"non-trivial = distinct histories of >= 2 feeds; oracle = reference accountant compared field by field (UID, id fields, vehicle, last observed, marked past, update count, stop-level marks), order and uniqueness included",
 		Assumptions: []string{"feeds list their trips in identifier order, as ParseRealtime produces them", "feed times are 60 s apart starting at a fixed instant"},
 		Scenarios: func(tier string) []*Scenario {
@@ -345,7 +487,8 @@ func init() {
 				n = 4
 			}
 			return []*Scenario{{Name: fmt.Sprintf("all-histories<=%d", n), Bound: 1, Run: c15Harness(n, false)},
-				{Name: fmt.Sprintf("four-identities<=%d", n-1), Bound: 1, Run: c15Harness(n-1, true)}}
+				{Name: fmt.Sprintf("four-identities<=%d", n-1), Bound: 1, Run: c15Harness(n-1, true)},
+				{Name: "many-trips", Bound: -1, Run: c15ManyTrips}}
 		},
 	})
 }
